@@ -130,8 +130,37 @@ where
     }
 
     fn sub(self, other: Expression) -> Result<Expression, Error> {
-        let other_neg = other.neg()?;
-        self.add(other_neg)
+        let y = match other {
+            Expression::Assets(x) => CanonicalAssets::from(x),
+            Expression::None => CanonicalAssets::empty(),
+            other => {
+                return Err(Error::InvalidBinaryOp(
+                    "sub".to_string(),
+                    format!("{self:?}"),
+                    format!("{other:?}"),
+                ))
+            }
+        };
+
+        let x: CanonicalAssets = self.into();
+
+        let overflows = y.iter().any(|(class, amount)| {
+            x.asset_amount(class)
+                .unwrap_or(0)
+                .checked_sub(*amount)
+                .is_none()
+        });
+
+        if overflows {
+            return Err(Error::InvalidBinaryOp(
+                "sub".to_string(),
+                format!("{x}"),
+                format!("{y}"),
+            ));
+        }
+
+        let total = x - y;
+        Ok(Expression::Assets(total.into()))
     }
 
     fn neg(self) -> Result<Expression, Error> {
@@ -162,8 +191,17 @@ impl Arithmetic for i128 {
     }
 
     fn sub(self, other: Expression) -> Result<Expression, Error> {
-        let other_neg = other.neg()?;
-        self.add(other_neg)
+        match other {
+            Expression::Number(y) => self.checked_sub(y).map(Expression::Number).ok_or_else(|| {
+                Error::InvalidBinaryOp("sub".to_string(), format!("{self:?}"), format!("{y:?}"))
+            }),
+            Expression::None => Ok(Expression::Number(self)),
+            _ => Err(Error::InvalidBinaryOp(
+                "sub".to_string(),
+                format!("{self:?}"),
+                format!("{other:?}"),
+            )),
+        }
     }
 
     fn neg(self) -> Result<Expression, Error> {
